@@ -40,10 +40,61 @@ def snmp_get(community=b'public', oid=b'\x2b\x06\x01\x04\x01\x9b\x19\x01\x01\x00
     return tlv(0x30, tlv(0x02, bytes([version])) + tlv(0x04, community) + p, seqlen)
 
 
+def oid_bytes(subids):
+    out = bytes([40 * subids[0] + subids[1]])
+    for n in subids[2:]:
+        b = [n & 0x7f]
+        n >>= 7
+        while n:
+            b.append(0x80 | (n & 0x7f))
+            n >>= 7
+        out += bytes(reversed(b))
+    return out
+
+
+EDGE = [0, 1, 2, 3, 5, 9, 11, 12, 15, 59, 60, 61, 62, 127, 128, 255, 256, 65535, 65536, 2147483647, 4294967295]
+SQUID_MIB = [1, 3, 6, 1, 4, 1, 3495, 1]
+
+
+def snmp_sweep(rnd):
+    """well-formed GET / GETNEXT requests over and around the Squid MIB"""
+    oids = []
+    for col in range(0, 13):                       # cacheMedianSvcTable: columns x rows (minutes)
+        for row in EDGE:
+            oids.append(SQUID_MIB + [3, 2, 2, 1, col, row])
+    for a in range(0, 7):                          # every group, scalars and tables, shallow and deep
+        for b in range(0, 4):
+            for c in (0, 1, 2, 3, 15, 16):
+                oids.append(SQUID_MIB + [a, b, c])
+                oids.append(SQUID_MIB + [a, b, c, 0])
+                oids.append(SQUID_MIB + [a, b, c, 1, rnd.choice(EDGE)])
+    for col in range(0, 16):                       # mesh tables are indexed by an address: four (or sixteen) sub-identifiers
+        for addr in ([127, 0, 0, 1], [0, 0, 0, 0], [255, 255, 255, 255], [127, 0, 0], [127, 0, 0, 1, 1], [300, 0, 0, 1], [1, 4, 127, 0, 0, 1], [2, 16] + [0] * 15 + [1]):
+            oids.append(SQUID_MIB + [5, 1, 3, 1, col] + addr)
+            oids.append(SQUID_MIB + [5, 2, 2, 1, col] + addr)
+            oids.append(SQUID_MIB + [4, 1, col] + addr[:1])
+    for _ in range(300):
+        oids.append(SQUID_MIB[:rnd.randint(2, 8)] + [rnd.choice(EDGE) for _ in range(rnd.randint(0, 8))])
+    oids += [[1, 3], [1, 3, 6, 1, 4, 1, 3495], SQUID_MIB, [0, 0], [2, 39, 4294967295], SQUID_MIB + [EDGE[-1]] * 20, SQUID_MIB + [1] * 100]
+    out = []
+    for o in oids:
+        ob = oid_bytes(o)
+        out.append(snmp_get(oid=ob))
+        out.append(snmp_get(oid=ob, pdu=0xa1))
+    return out
+
+
 def datagrams(par, rnd, http_url):
     proto, shape = par['proto'], par['shape']
     url = http_url.encode()
     out = []
+    if shape == 'wellformed_sweep':
+        if proto == 'snmp':
+            return snmp_sweep(rnd)
+        if proto == 'htcp':
+            return [htcp(op, u) for op in range(0, 16) for u in (url, b'', b'http://[::1]/', b'x' * 2000, url + b'?' + b'%00' * 10)]
+        v = 2 if proto == 'icp2' else 3
+        return [icp(v, op, rnd.randint(1, 1 << 30), u) for op in range(0, 24) for u in (url, b'', b'http://[::1]:0/', b'urn:x:y', b'x' * 3000, b'http://a/\x00b')]
     if proto in ('icp2', 'icp3'):
         v = 2 if proto == 'icp2' else 3
         base = icp(v, 1, rnd.randint(1, 1 << 30), url)
@@ -103,20 +154,28 @@ def run(ctx):
                 port = {'icp2': icp_p, 'icp3': icp_p, 'htcp': htcp_p, 'snmp': snmp_p}[par['proto']]
                 dgs = datagrams(par, rnd, url)
                 sent = 0
-                for d in dgs:
+                replies = 0
+
+                def drain():
+                    n = 0
+                    try:
+                        while True:
+                            s.recvfrom(65536)
+                            n += 1
+                    except (BlockingIOError, OSError):
+                        pass
+                    return n
+                for k, d in enumerate(dgs):
                     try:
                         s.sendto(d[:65000], ('127.0.0.1', port))
                         sent += 1
                     except OSError:
                         pass
-                await asyncio.sleep(0.15 if par['shape'].startswith('valid') else 0.02)
-                replies = 0
-                try:
-                    while True:
-                        s.recvfrom(65536)
-                        replies += 1
-                except (BlockingIOError, OSError):
-                    pass
+                    if k % 40 == 39:            # paced: neither side's socket buffer may drop what the sweep sends
+                        await asyncio.sleep(0.03)
+                        replies += drain()
+                await asyncio.sleep(0.15 if (par['shape'].startswith('valid') or par['shape'] == 'wellformed_sweep') else 0.02)
+                replies += drain()
                 ok = False
                 try:
                     r = await peers.simple_get(rec, sq.port, 'http://127.0.0.1:%d/c39/p%d' % (g.port, len(hist)), vid='p', timeout=5.0)
@@ -143,6 +202,6 @@ def run(ctx):
     for h in hist[:2]:
         ctx.sample({'par': h['par'], 'datagrams_sent': h['sent'], 'replies': h['replies']})
     ctx.cov['rule'] = ('classes = DatagramScen.tla (protocol x shape: valid query/reply, bad opcode/version, every length field forced to 0/1/actual-1/actual+1/max, truncations, nested '
-                       'lengths, huge counts, garbage, empty, oversize); reference encoders for ICP v2/v3, HTCP TST and SNMP GET written in the driver; after each class an HTTP probe; TLC '
+                       'lengths, huge counts, garbage, empty, oversize, and a sweep of well-formed requests with extreme content: SNMP GET/GETNEXT over and around the Squid MIB with boundary rows/columns/indexes, every ICP and HTCP opcode with odd URLs); reference encoders for ICP v2/v3, HTCP TST and SNMP GET written in the driver; after each class an HTTP probe; TLC '
                        'validates against Robust.tla.')
     ctx.assumptions += ['normal (hooks) build: crashes/assertions are observed as exit, silent out-of-bounds accesses are not (no ASan build): level exploration']
